@@ -113,10 +113,12 @@ class History(object):
         else:
             raise ValueError("unknown op %r" % (op,))
 
-    def run(self, on_op=None):
+    def run(self, on_op=None, before_op=None):
         for i, op in enumerate(self.case["ops"]):
             if self.world.dead:
                 break
+            if before_op is not None:
+                before_op(self, i, op)
             self.apply(i, op)
             if on_op is not None:
                 on_op(self, i, op)
